@@ -359,7 +359,11 @@ pub fn read_conference_create_response(cc_response: &mut dyn Read) -> RdpResult<
             break;
         }
 
-        let mut buffer = vec![0 as u8; (cast!(DataType::U16, header["length"])? - header.length() as u16) as usize];
+        let length = cast!(DataType::U16, header["length"])?;
+        if (length as u64) < header.length() {
+            return Err(Error::RdpError(RdpError::new(RdpErrorKind::InvalidSize, "GCC: block length shorter than its header")))
+        }
+        let mut buffer = vec![0 as u8; (length - header.length() as u16) as usize];
         sub.read_exact(&mut buffer)?;
 
         match MessageType::from(cast!(DataType::U16, header["type"])?) {
